@@ -202,7 +202,14 @@ func (o oddVerifiers) Verifier(name string, hash uint32) (note.Verifier, error) 
 
 func mkVerifiers(mode string, vs []note.Verifier) note.Verifiers {
 	if mode == "" {
-		return note.VerifierList(vs...)
+		// the list is built from a slice the caller goes on using for something else: what the list knows is what
+		// it was given, not what the slice holds later
+		scratch := append([]note.Verifier(nil), vs...)
+		known := note.VerifierList(scratch...)
+		for i := range scratch {
+			scratch[i] = impostor{keySpec{Name: "someone-else", ID: 99, Hash: 0x5eed0000 + uint32(i)}}
+		}
+		return known
 	}
 	return oddVerifiers{mode, vs}
 }
@@ -555,7 +562,13 @@ func check(c noteCase) pbt.Result {
 			n.Sigs = append(n.Sigs, s)
 		}
 	}
+	sigsBefore := append([]note.Signature(nil), n.Sigs...)
+	unverBefore := append([]note.Signature(nil), n.UnverifiedSigs...)
 	msg, err := note.Sign(n, signers...)
+	if n.Text != c.Text || fmt.Sprint(n.Sigs) != fmt.Sprint(sigsBefore) || fmt.Sprint(n.UnverifiedSigs) != fmt.Sprint(unverBefore) {
+		r.Fail = pbt.Failf("sign-changes-note", "Sign changed the caller's note: signatures were %v / %v, are %v / %v", sigsBefore, unverBefore, n.Sigs, n.UnverifiedSigs)
+		return r
+	}
 	wantSignOK := strings.HasSuffix(c.Text, "\n") && !badSigner
 	if (err == nil) != wantSignOK {
 		r.Fail = pbt.Failf("sign-accept", "Sign(text %q, %d signers) err=%v; text ends in newline=%v, invalid signer name=%v", c.Text, len(signers), err, strings.HasSuffix(c.Text, "\n"), badSigner)
